@@ -19,10 +19,12 @@ V1Homes == {"RFC1155-SMI", "RFC1065-SMI"}
 
 VARIABLES sc
 vars == <<sc>>
-Obj(t, a, s) == [type |-> t, access |-> a, status |-> s]
+\* defval: the object carries a DEFVAL clause (a literal of its type's notation) - the default is resolved through the
+\* object's type, so the SMIv1 type names (Counter, Gauge, NetworkAddress) must lead to the same base type as their SMIv2 names
+Obj(t, a, s, d) == [type |-> t, access |-> a, status |-> s, defval |-> d]
 Init == sc = <<>>
-Objs1 == {<<Obj(t, a, s)>> : t \in V1Types, a \in V1Access, s \in V1Status}
-Objs2 == {<<Obj(t, a, s), Obj(u, "read-only", "mandatory")>> : t \in V1Types, a \in V1Access, s \in V1Status, u \in V1Types}
+Objs1 == {<<Obj(t, a, s, d)>> : t \in V1Types, a \in V1Access, s \in V1Status, d \in BOOLEAN}
+Objs2 == {<<Obj(t, a, s, FALSE), Obj(u, "read-only", "mandatory", d)>> : t \in V1Types, a \in V1Access, s \in V1Status, u \in V1Types, d \in BOOLEAN}
 Choose == \E os \in Objs1 \cup Objs2 :
           \E ez \in BOOLEAN : \E tb \in BOOLEAN, tv \in 0..2, home \in V1Homes, idx \in {"INTEGER", "IpAddress", "DisplayString", "TYPE:INTEGER"} :     \* TYPE:x = RFC 1212 index given as a type, INDEX { INTEGER }
              sc' = [entzero |-> ez, objs |-> os, table |-> tb, trapvars |-> tv, home |-> home, idxtype |-> idx]
